@@ -138,6 +138,27 @@ def r2(ctx):
             ok = bool(hit)
             ctx.inst(R, f"remove:clears-{name}", ok, rm.span, f"remove() updates `{name}`" if ok else
                      f"SocketTable::remove no longer updates `{name}`: stale {name} entries swallow later binds / connections")
+    if rm:
+        # the 4-tuple index is cleaned by *owner*: an entry may have been overwritten by a newer socket with the same pair
+        # (a SYN reusing the pair of a Closed connection), so a removal by key must not be taken for a removal of this fd's entry
+        keyed, owned = [], []
+        for fb in ctx.w.family(rm.id):
+            for bb, t in fb.calls(re.compile(r"::(shift_remove|swap_remove|remove|shift_remove_entry|swap_remove_entry)$")):
+                if t["args"] and _on_field(fb, t["args"][0], idx["connections"]):
+                    # acceptable only behind a test that the stored fd is the one being removed
+                    g = False
+                    for sbb, te, fe, o in guards_on(fb, lambda o: o["k"] in ("call", "bin")):
+                        at = Slicer(ctx.w).atoms(fb, fb.term(sbb)["d"])
+                        if "field:" + idx["connections"] in at and any(a.startswith("arg:2:") for a in at) and fb.dominated_by_any(bb, edges=te):
+                            g = True
+                    (owned if g else keyed).append(t["s"])
+            for bb, t in fb.calls(re.compile(r"::(retain|retain_mut)$")):
+                if t["args"] and _on_field(fb, t["args"][0], idx["connections"]):
+                    owned.append(t["s"])
+        ok = bool(owned) and not keyed
+        ctx.inst(R, "remove:connections-by-owner", ok, keyed[0] if keyed else rm.span, "the 4-tuple index is cleaned by the removed fd, not by key" if ok else
+                 "SocketTable::remove deletes the 4-tuple index entry by key without checking that it still points at the socket being removed: when a newer connection "
+                 "reuses the pair of a closed one whose handle is dropped later, the live connection's entry is deleted and its segments are answered with RST")
     for b in sorted(ctx.w.bodies.values(), key=lambda b: b.id):
         if b.crate != "turmoil_net":
             continue
@@ -456,6 +477,8 @@ def r9(ctx):
 
 
 def run(ctx):
+    from . import C06
+    C06.r7(ctx)   # a close actually sends its FIN: fin_seq is the byte after send_buf, whatever is in flight (else FIN_WAIT1 for ever, entries leak)
     r10(ctx)
     r9(ctx)
     scan_rule(ctx, "C13")
